@@ -29,6 +29,7 @@ func runC07(r *Report) {
 	c07R3(r)
 	c07R4(r)
 	c07R5(r)
+	c07R6(r)
 }
 
 // R5 (from round-2 seeded changes):
@@ -814,4 +815,99 @@ func xorsParam(f *ssa.Function, idx int) bool {
 		return false
 	}
 	return flows(f.Params[idx], 0)
+}
+
+// c07R6: two more conditions of "the outcome does not depend on how the streams are cut".
+//
+// (a) A stage that may find part of its bytes already in the buffer asks the connection for what is missing, not for
+// the whole stage: io.ReadAtLeast(conn, buf[l:], n-l). With `n` as the minimum the stage fails ("short buffer") or
+// waits for bytes the peer will never send exactly when a segment boundary fell inside the previous stage's surplus.
+// The two readMore siblings (crypto, protocol) are judged by the same rule.
+//
+// (b) In the MSE handshakes each side sends a message of a length the other side does not know while the other side
+// may itself still be sending (pads): such a write overlaps the reading — it is started with writeAsync and its
+// result collected only after a read. A blocking conn.Write followed by a read in the same function waits for a peer
+// that is itself waiting: over a transport that does not buffer, the handshake then succeeds or times out depending
+// on how the first reads happened to be cut.
+func c07R6(r *Report) {
+	p := r.P
+	// (a)
+	n := 0
+	for _, f := range p.SrcFuncs() {
+		if pk := relPkg(f); pk != "crypto" && pk != "protocol" {
+			continue
+		}
+		allInstrs(f, func(in ssa.Instruction) {
+			c, ok := in.(*ssa.Call)
+			if !ok || !isStdCall(c, "io", "", "ReadAtLeast") || len(c.Call.Args) != 3 {
+				return
+			}
+			n++
+			r.Fn(f)
+			good := true
+			why := ""
+			if sl, isSl := strip(c.Call.Args[1]).(*ssa.Slice); isSl && sl.Low != nil {
+				if k, isK := constInt(sl.Low); !(isK && k == 0) {
+					// the minimum must be (something) - low
+					bo, isB := stripIntConv(c.Call.Args[2]).(*ssa.BinOp)
+					if !isB || bo.Op != token.SUB || stripIntConv(bo.Y) != stripIntConv(sl.Low) {
+						good = false
+						why = fmt.Sprintf("the destination starts at %s but the minimum %s is not reduced by it", exprStr(sl.Low), exprStr(c.Call.Args[2]))
+					}
+				}
+			}
+			r.Check(good, "R1", fname(f)+"/ReadAtLeast-min-is-what-is-missing", c.Pos(), "the minimum asked of the connection is the stage's length minus what the buffer already holds",
+				"a handshake stage asks the connection for its whole length although part of it is already in the buffer ("+why+"): when the previous read brought some of this stage's bytes along, the stage fails with a short buffer or waits for bytes that will never come — the outcome depends on where the segment boundaries fell")
+		})
+	}
+	r.Sentinel("R1.readatleast", n, 2)
+	// (b)
+	wa := p.Func("crypto", "writeAsync")
+	if !r.Anchor("R1", "crypto.writeAsync", wa != nil) {
+		return
+	}
+	isRead := func(in ssa.Instruction) bool {
+		c, ok := in.(*ssa.Call)
+		if !ok {
+			return false
+		}
+		if c.Call.IsInvoke() {
+			return c.Call.Method.Name() == "Read"
+		}
+		h := c.Call.StaticCallee()
+		if h == nil {
+			return false
+		}
+		if relPkg(h) == "crypto" && (h.Name() == "synchronise" || h.Name() == "readMore") {
+			return true
+		}
+		return isStdCall(c, "io", "", "ReadFull") || isStdCall(c, "io", "", "ReadAtLeast")
+	}
+	nW := 0
+	for _, name := range []string{"ClientHandshake", "ServerHandshake"} {
+		f := p.Func("crypto", name)
+		if f == nil {
+			continue
+		}
+		r.Fn(f)
+		allInstrs(f, func(in ssa.Instruction) {
+			c, ok := in.(*ssa.Call)
+			if !ok || !c.Call.IsInvoke() || c.Call.Method.Name() != "Write" || !typeIs(c.Call.Value.Type(), "net", "Conn") {
+				return
+			}
+			nW++
+			var rd ssa.Instruction
+			allInstrs(f, func(i2 ssa.Instruction) {
+				if rd == nil && isRead(i2) && instrReaches(c, i2) {
+					rd = i2
+				}
+			})
+			msg := ""
+			if rd != nil {
+				msg = fmt.Sprintf("crypto.%s writes to the connection synchronously and reads from it afterwards (%s): while this side waits for the write to be taken, the peer may be waiting for its own write (a pad of a length this side cannot know) to be read — whether the handshake completes then depends on how the earlier reads were cut and on the transport's buffering", name, p.Fset.Position(rd.Pos()))
+			}
+			r.Check(rd == nil, "R1", name+"/no-blocking-write-before-a-read", c.Pos(), "a synchronous write is the last thing the handshake does with the connection", msg)
+		})
+	}
+	r.Sentinel("R1.sync-writes", nW, 1)
 }
